@@ -23,6 +23,12 @@
 (***************************************************************************)
 EXTENDS TraceBase, BigPoly
 
+\* Which judgments this run makes.  A session exercises many mechanisms; each property's check judges only the
+\* clauses that property states ("scalar": C15, "derive": C08, "integrate": C11, "combine": C13, "eval": C02,
+\* "query": C03, "vnext": C12), so that a change breaking one property does not raise another property's alarm.
+CONSTANT Scope
+JudgeIn(sc, ok, what) == IF sc \in Scope THEN Judge(ok, what) ELSE TRUE
+
 VARIABLES kind, ends, pieces, handle, off, last, vprev, vlast, pre
 
 svars == << kind, ends, pieces, handle, off, last, vprev, vlast, pre >>
@@ -70,8 +76,8 @@ Mutation(name, exact) ==
     /\ Keep(<< kind, handle, off, last, vprev, vlast >>)
     /\ IF ~(FiniteT(pieces) /\ FiniteT(Ev.pieces) /\ InRangeT(exact)) THEN TRUE
        ELSE /\ Tally(11, TRUE)
-            /\ Judge(Ev.ends = ends, "breakpoints changed")
-            /\ Judge(TableRnd(Ev.pieces, exact), "piece is not the operation applied to it alone")
+            /\ JudgeIn("scalar", Ev.ends = ends, "breakpoints changed")
+            /\ JudgeIn("scalar", TableRnd(Ev.pieces, exact), "piece is not the operation applied to it alone")
 
 TraceScale     == Mutation("scale", L!ScaleX(ValsT(pieces), Val(Ev.s)))
 TraceNeg       == Mutation("neg", L!NegX(ValsT(pieces)))
@@ -90,12 +96,12 @@ TraceDerive ==
     /\ IF ~(FiniteT(pieces) /\ FiniteT(Ev.pieces)) THEN TRUE
        ELSE LET exact == L!DeriveX(ValsT(pieces)) IN
             /\ Tally(11, TRUE)
-            /\ Judge(Ev.ends = ends, "breakpoints changed")
-            /\ Judge(DeriveOK(Ev.pieces, exact), "formal derivative")
-            /\ Judge(Len(Ev.pieces[1]) = (IF Len(pieces[1]) = 1 THEN 1 ELSE Len(pieces[1]) - 1), "degree bookkeeping")
+            /\ JudgeIn("derive", Ev.ends = ends, "breakpoints changed")
+            /\ JudgeIn("derive", DeriveOK(Ev.pieces, exact), "formal derivative")
+            /\ JudgeIn("derive", Len(Ev.pieces[1]) = (IF Len(pieces[1]) = 1 THEN 1 ELSE Len(pieces[1]) - 1), "degree bookkeeping")
             \* derivative . integral = identity (system-level)
             /\ IF pre.op = "integrate" /\ FiniteT(pre.pieces)
-               THEN Tally(13, TRUE) /\ Judge(Ev.ends = pre.ends /\ DeriveOK(Ev.pieces, ValsT(pre.pieces)), "derivative of the integral is not the integrand")
+               THEN Tally(13, TRUE) /\ JudgeIn("integrate", Ev.ends = pre.ends /\ DeriveOK(Ev.pieces, ValsT(pre.pieces)), "derivative of the integral is not the integrand")
                ELSE TRUE
 
 \* integral(k0): lanes by correct rounding; constants by the C11 contract with accumulated magnitudes
@@ -122,8 +128,8 @@ TraceIntegrate ==
     /\ Keep(<< kind, handle, off, last, vprev, vlast >>)
     /\ IF ~(FiniteT(pieces) /\ FiniteT(Ev.pieces) /\ Finite(ends) /\ IsFinite(Ev.kx) /\ IsFinite(Ev.ky)) THEN TRUE
        ELSE /\ Tally(11, TRUE)
-            /\ Judge(Ev.ends = ends, "breakpoints changed")
-            /\ Judge(IntegrateOK(Val(Ev.kx), Val(Ev.ky)), "piecewise integral")
+            /\ JudgeIn("integrate", Ev.ends = ends, "breakpoints changed")
+            /\ JudgeIn("integrate", IntegrateOK(Val(Ev.kx), Val(Ev.ky)), "piecewise integral")
 
 \* Library!MergeFrom with breakpoints as bit patterns (IEEE comparisons) and pieces as exact values
 RECURSIVE MergeBitsFrom(_, _, _, _, _, _)
@@ -150,9 +156,9 @@ Combine(name, sub) ==
                 \* the merge compares breakpoints: run it on bit patterns with the IEEE order
                 r == MergeBits(f, g, sub)
             IN  /\ Tally(11, TRUE) /\ Tally(14, TRUE)
-                /\ Judge(P!WellFormed(Ev.ends), "result not well-formed")
-                /\ Judge(Ev.ends = r.ends, "merged breakpoints")
-                /\ Judge(InRangeT(r.pieces) => TableRnd(Ev.pieces, r.pieces), "combined pieces")
+                /\ JudgeIn("combine", P!WellFormed(Ev.ends), "result not well-formed")
+                /\ JudgeIn("combine", Ev.ends = r.ends, "merged breakpoints")
+                /\ JudgeIn("combine", InRangeT(r.pieces) => TableRnd(Ev.pieces, r.pieces), "combined pieces")
 
 TraceAdd == Combine("add", FALSE)
 TraceSub == Combine("sub", TRUE)
@@ -179,7 +185,7 @@ ValueOK(x, y) ==
 TraceEval ==
     /\ IsOp("eval")
     /\ Keep(svars)
-    /\ Judge(ValueOK(Ev.x, Ev.y), "direct evaluation")
+    /\ JudgeIn("eval", ValueOK(Ev.x, Ev.y), "direct evaluation")
 
 TraceNew ==
     /\ IsOp("new")
@@ -199,7 +205,7 @@ TraceQuery ==
                    ELSE IF Le(last, x) THEN scan[off]
                    ELSE IF cand = {} THEN 0 ELSE CHOOSE i \in cand : \A k \in cand : k <= i
        IN  /\ off' = Ev.off /\ last' = Ev.last
-           /\ Judge(ValueOK(x, Ev.y), "evaluator answer")
+           /\ JudgeIn("query", ValueOK(x, Ev.y), "evaluator answer")
            /\ Drift(Ev.off = moff /\ Ev.tail = front - moff /\ (IsNaN(x) \/ Ev.last = x), "cursor")
     /\ Keep(<< kind, ends, pieces, handle, vprev, vlast, pre >>)
 
@@ -216,7 +222,7 @@ TraceVNext ==
     /\ IsOp("vnext")
     /\ Judge(vprev > 0 /\ (vlast = << >> \/ Le(vlast[1], Ev.x)), "harness: batch not non-decreasing")
     /\ vprev' = P!SelectScan(ends, Ev.x) /\ vlast' = << Ev.x >>
-    /\ Judge(ValueOK(Ev.x, Ev.y), "evaluate_v answer")
+    /\ JudgeIn("vnext", ValueOK(Ev.x, Ev.y), "evaluate_v answer")
     /\ Keep(<< kind, ends, pieces, handle, off, last, pre >>)
 TraceVEnd ==
     /\ IsOp("vend")
